@@ -15,3 +15,7 @@ pub(crate) use chordal_info::*;
 pub(crate) use merge::*;
 pub(crate) use sparsity_pattern::*;
 pub(crate) use supernode_tree::*;
+
+// verification-only hooks (see /verif); compiled only under the guard cfg
+#[cfg(oxfordcontrol_clarabel_rs_verif)]
+pub(crate) use decomp::{verif_hooks_ac, verif_hooks_as, verif_hooks_rs};
